@@ -71,8 +71,14 @@ class C01(SCheck):
         kernel = {}
         if M is not None:
             kernel["max_io"] = M
-        if r.random() < 0.3:
+        has_sparse = any(o.get("op") == "file" and o["p"].startswith("src/") and o.get("runs") is not None and sum(x[1] for x in o["runs"]) < o["len"] - 65536 for o in ops)
+        if r.random() < (0.7 if has_sparse else 0.2):
             kernel["fiemap"] = "emulate"
+            if r.random() < 0.5:
+                # informational extent flags (unwritten, delalloc, merged, shared, not-aligned): such extents still hold data
+                kernel["fiemap_flagbits"] = r.choice(gen.FIEMAP_FLAGBITS)
+            if r.random() < 0.3:
+                kernel["fiemap_split"] = 4096
         return {"setup": ops, "steps": [{"inv": inv}], "kernel": kernel, "max_events": 400000}
 
     def evaluate(self, res, verdict, case, step_i, t0, plan):
